@@ -98,16 +98,31 @@ def random_runs(worlds, n_per_world, K, rng):
             st = [w["grid"][c["name"]][rng.integers(len(w["grid"][c["name"]]))] for c in w["comps"]]
             hist = []
             for k in range(K):
-                pv = []
-                for p in w["pars"]:
-                    v = p["dom"][rng.integers(len(p["dom"]))]
-                    pv.append(v)
+                while True:
+                    pv = []
+                    for p in w["pars"]:
+                        v = p["dom"][rng.integers(len(p["dom"]))]
+                        pv.append(v)
+                    # C01's domain restriction: a plain junction that may receive people needs a positive sum of proportions (the free runs
+                    # have no expectation to tell an idle junction from an ill-posed one, so they avoid the all-zero vectors altogether)
+                    names = [p["name"] for p in w["pars"]]
+                    bad = False
+                    for c in w["comps"]:
+                        if c["kind"] == "junction":
+                            outs = [l for l in w["links"] if l["src"] == c["name"] and l["par"] in names]
+                            if outs and all(pv[names.index(l["par"])] <= 0 for l in outs):
+                                bad = True
+                    if not bad:
+                        break
                 if k > 0:
                     for i, p in enumerate(w["pars"]):
                         if p["timed"]:
                             pv[i] = hist[0]["pvf"][i]
                 hist.append(dict(pvf=pv))
-            cases.append((w["id"], dict(free=True, st=st, hist=hist, jitter=float(rng.uniform(0.5, 1.5)))))
+            # every third run in per-capita units: stocks (and number parameters) scaled to 1e-8 .. 1e-6 people, where a guard that treats
+            # "small" as "zero" would lose people that the property's absolute tolerance (1e-9) still counts
+            scale = 2.0 ** -28 if len(cases) % 3 == 2 else 1.0
+            cases.append((w["id"], dict(free=True, st=st, hist=hist, jitter=float(rng.uniform(0.5, 1.5)), scale=scale)))
     return cases
 
 
@@ -121,9 +136,10 @@ def free_run(args):
     dt = float(w["dt"])
     S = at.ProjectSettings(sim_start=2000, sim_end=2000 + K * dt, sim_dt=dt)
     jit = case["jitter"]
-    pv = [[(Fr(x) if p["timed"] or p["units"] == "proportion" else Fr(float(x) * jit)) for x, p in zip(h["pvf"], w["pars"])] for h in case["hist"]]
+    scale = case.get("scale", 1.0)
+    pv = [[(Fr(x) if p["timed"] or p["units"] == "proportion" else Fr(float(x) * jit * (scale if p["units"] == "number" else 1.0))) for x, p in zip(h["pvf"], w["pars"])] for h in case["hist"]]
     Fw, ps = WD.build_parset(w, pv, S.tvec)
-    WD.set_state(w, ps, [[Fr(float(x) * jit) for x in rows] for rows in case["st"]])
+    WD.set_state(w, ps, [[Fr(float(x) * jit * scale) for x in rows] for rows in case["st"]])
     try:
         with O.LinkObserver():
             r = at.run_model(S, Fw, ps)
@@ -258,7 +274,9 @@ def run(prop, tier):
     n1 = len(r1["cases"]) if thorough else 2400
     n2 = len(r2["cases"]) if thorough else 1200
     sel = E.stratified(r1["cases"], n1, rng) + E.stratified(r2["cases"], n2, rng)
-    allw = W1 + W2
+    W3 = WD.catalogue_traceonly(tier) if prop in ("C05", "C03") else []
+    cov["worlds_trace_only"] = [w["id"] for w in W3]
+    allw = W1 + W2 + W3
     E._WORLDS_ALL = {w["id"]: w for w in allw}
     res = E.replay(allw, sel, want_obs=True)
     mismatching = [(c, o) for c, o in zip(sel, res) if o["mism"]]
@@ -278,8 +296,14 @@ def run(prop, tier):
     os.makedirs(tdir, exist_ok=True)
     files = write_world_traces(allw, sel, res, tdir)
     free = random_runs(W1, 40 if thorough else 6, 6 if thorough else 4, rng)
+    free += random_runs(W3, 2, 3, rng)
     fres = E.pool_map(allw, free_run, free)
     ffiles = write_world_traces(allw, free, fres, os.path.join(tdir, "free"))
+    for (wid, case), o in zip(free, fres):
+        if o["mism"] and prop in ("C05", "C03") and wid in {w["id"] for w in W3}:
+            # the model allocated a different number of elapsed-time bins than n = ceil(D/dt) (the initial rows no longer fit)
+            w_ = E._WORLDS_ALL[wid]
+            V.violation("%s replay rows world=%s" % (prop, wid), dict(source="free multi-step run", world=wid, dt=str(w_["dt"]), expected_rows={c["name"]: c["rows"] for c in w_["comps"] if c["rows"] > 1}))
     lib = library_traces(LIB_THOROUGH if thorough else LIB_QUICK, tdir) if prop in ("C01", "C02", "C03", "C04") else []
     lib += fixture_traces(tdir, 400 if thorough else 8, only=None if thorough else QUICK_FIXTURES)
     paths = list(files) + list(ffiles) + lib
